@@ -197,6 +197,8 @@ spec fn scan_result(r: XResult<KeyLocation>, ef: XValue, key: Val, ks: Seq<Val>,
     }
 }
 
+// @@INCLUDE stdx@@
+
 // @@EXTRACTED@@
 
 } // verus!
